@@ -22,12 +22,18 @@ def dec(z, sc=SC):
     return "%s%d.%0*d" % (s, z // sc, digits, z % sc) if z % sc else "%s%d" % (s, z // sc)
 
 
+def enot(z, sc):
+    """the same rational number written with an exponent: <integer>e-<digits>"""
+    return "%de-%d" % (z, len(str(sc)) - 1) if z % 7 else "%d.0E-%d" % (z, len(str(sc)) - 1)
+
+
 def xml_of(doc, rng, style):
     lines = ['<?xml version="1.0" encoding="UTF-8"?>'] if style % 2 else []
     lines.append("<molecule>")
     lines.append("  <atomArray>")
     for (i, e, p) in doc["atoms"]:
-        lines.append('    <atom id="%s" elementType="%s" x3="%s" y3="%s" z3="%s" />' % (i, e, dec(p[0], doc.get("sc", SC)), dec(p[1], doc.get("sc", SC)), dec(p[2], doc.get("sc", SC))))
+        fmt = (lambda z: enot(z, doc.get("sc", SC))) if doc.get("enot") else (lambda z: dec(z, doc.get("sc", SC)))
+        lines.append('    <atom id="%s" elementType="%s" x3="%s" y3="%s" z3="%s" />' % (i, e, fmt(p[0]), fmt(p[1]), fmt(p[2])))
     lines.append("  </atomArray>")
     if doc["bonds"] or style % 3 != 0:
         lines.append("  <bondArray>")
@@ -41,7 +47,7 @@ def xml_of(doc, rng, style):
 
 def gen_doc(rng, k):
     n = [1, 1, 2, 3, 5, 8, 12, 30][k % 8] if k % 5 else rng.randint(1, 30)
-    scheme = ["sequential", "shuffled", "strings", "gaps", "case"][k % 5]
+    scheme = ["sequential", "shuffled", "strings", "gaps", "case", "digits"][k % 6]
     if scheme == "sequential":
         ids = ["a%d" % (i + 1) for i in range(n)]
     elif scheme == "shuffled":
@@ -55,6 +61,9 @@ def gen_doc(rng, k):
                 ids.append(s)
     elif scheme == "gaps":
         ids = ["a%d" % v for v in rng.sample(range(1, 500), n)]
+    elif scheme == "digits":
+        # ids that are numbers, but not the atoms' 1-based positions: shuffled, zero-based, multiples of ten
+        ids = [str(v) for v in rng.choice([rng.sample(range(1, n + 1), n), list(range(n)), [10 * (i + 1) for i in range(n)], rng.sample(range(0, 3 * n + 3), n)])]
     else:    # ids that differ only in letter case
         base = ["CA", "Ca", "ca", "cA", "N1", "n1", "X", "x"]
         ids = (base + ["b%d" % i for i in range(n)])[:n]
@@ -70,7 +79,7 @@ def gen_doc(rng, k):
         atoms = [(ids[i], els[i], tuple(rng.randrange(-mag * SC, mag * SC) for _ in range(3))) for i in range(n)]
     nb = 0 if (n == 1 or k % 4 == 0) else rng.randint(1, 2 * n)
     bonds = [tuple(rng.sample(ids, 2)) for _ in range(nb)]
-    return {"atoms": atoms, "bonds": bonds, "scheme": scheme, "sc": sc}
+    return {"atoms": atoms, "bonds": bonds, "scheme": scheme, "sc": sc, "enot": (k % 7 == 3)}
 
 
 def run_impl(text, via):
@@ -128,7 +137,7 @@ def main(tier, seed, replay=None):
             r = json.load(open(replay))
             if "input" in r:
                 d = r["input"]
-                docs.append({"atoms": [(a, e, tuple(p)) for a, e, p in d["atoms"]], "bonds": [tuple(b) for b in d["bonds"]], "scheme": "replay", "sc": d.get("sc", SC)})
+                docs.append({"atoms": [(a, e, tuple(p)) for a, e, p in d["atoms"]], "bonds": [tuple(b) for b in d["bonds"]], "scheme": "replay", "sc": d.get("sc", SC), "enot": d.get("enot", False)})
         for name, cj in corpus("C16"):
             docs.append({"atoms": [(a, e, tuple(p)) for a, e, p in cj["atoms"]], "bonds": [tuple(b) for b in cj["bonds"]], "scheme": "corpus:" + name})
         if not replay:
@@ -152,7 +161,7 @@ def main(tier, seed, replay=None):
                 bad.append("loading from a path and from an open file differ")
             if bad:
                 found_input = True
-                run.violation("failing-input", {"input": {"atoms": doc["atoms"], "bonds": doc["bonds"], "sc": doc.get("sc", SC), "xml": text}, "observed": bad[:5],
+                run.violation("failing-input", {"input": {"atoms": doc["atoms"], "bonds": doc["bonds"], "sc": doc.get("sc", SC), "enot": doc.get("enot", False), "xml": text}, "observed": bad[:5],
                                                 "expected": "one atom per entry in document order with its element and coordinates; one bond per bond entry between the referenced atoms",
                                                 "case_kind": doc["scheme"]})
             if len(doc["atoms"]) >= 2 and len(set(e for _, e, _ in doc["atoms"])) >= 2 and doc["bonds"]:
